@@ -55,6 +55,35 @@ type foreignEmbed struct {
 	extra int
 }
 
+// foreign exception types that embed a library exception (by pointer or by value) but answer TypeId() and
+// Error() themselves: for the helpers they are foreign exceptions with the OUTER id and text
+type foreignEmbedT struct {
+	*thrift.TransportException
+	id  int32
+	msg string
+}
+
+func (e *foreignEmbedT) Error() string { return e.msg }
+func (e *foreignEmbedT) TypeId() int32 { return e.id }
+
+type foreignEmbedP struct {
+	*thrift.ProtocolException
+	id  int32
+	msg string
+}
+
+func (e *foreignEmbedP) Error() string { return e.msg }
+func (e *foreignEmbedP) TypeId() int32 { return e.id }
+
+type foreignEmbedAV struct {
+	thrift.ApplicationException // by value
+	id                          int32
+	msg                         string
+}
+
+func (e *foreignEmbedAV) Error() string { return e.msg }
+func (e *foreignEmbedAV) TypeId() int32 { return e.id }
+
 // enode is the model's view of an error term.
 type enode struct {
 	kind  int
@@ -138,6 +167,14 @@ func genTerm(cs *drv.Case, depth int) *enode {
 	case ekApplication:
 		return &enode{kind: ekApplication, err: thrift.NewApplicationException(id, txt)}
 	case ekForeign:
+		switch cs.R.Intn(6) {
+		case 0:
+			return &enode{kind: ekForeign, err: &foreignEmbedT{thrift.NewTransportException(id+1, "inner "+txt), id, txt}}
+		case 1:
+			return &enode{kind: ekForeign, err: &foreignEmbedP{thrift.NewProtocolException(id+2, "inner "+txt), id, txt}}
+		case 2:
+			return &enode{kind: ekForeign, err: &foreignEmbedAV{*thrift.NewApplicationException(id+3, "inner "+txt), id, txt}}
+		}
 		return &enode{kind: ekForeign, err: &foreignExc{id, txt}}
 	case ekForeignEmbed:
 		return &enode{kind: ekForeignEmbed, err: &foreignEmbed{thrift.NewApplicationException(id, txt), 1}}
@@ -295,6 +332,54 @@ func monC18(c *drv.Ctx) {
 		c18Prepend(cs, n, prefix)
 		cs.Count(true, "grid", i)
 	})
+	// (2b) a library exception that is prepended, then refilled through its exported FastRead (a pooled
+	// exception object used again), then prepended once more with the same prefix: the second result
+	// describes what the object holds now
+	c.Stage("prepend-after-refill", c.Pick(3000, 100000), false, func(cs *drv.Case) {
+		r := cs.R
+		id1, id2 := c18IDs[r.Intn(len(c18IDs))], c18IDs[r.Intn(len(c18IDs))]
+		t1, t2 := "first "+string(gen.Bytes(r, r.Intn(8))), "second "+string(gen.Bytes(r, r.Intn(8)))
+		prefix := []string{"", "ctx: ", "%s "}[r.Intn(3)]
+		type refillable interface {
+			error
+			TypeId() int32
+			FastRead([]byte) (int, error)
+		}
+		var e refillable
+		kind := cs.Idx % 3
+		switch kind {
+		case 0:
+			e = thrift.NewApplicationException(id1, t1)
+		case 1:
+			e = thrift.NewTransportException(id1, t1)
+		default:
+			e = thrift.NewProtocolException(id1, t1)
+		}
+		check := func(when string) bool {
+			res := thrift.PrependError(prefix, e)
+			ti, ok := res.(interface{ TypeId() int32 })
+			if !ok || ti.TypeId() != e.TypeId() || res.Error() != prefix+e.Error() {
+				cs.Fail("prepend-stale", M{"kind": []string{"application", "transport", "protocol"}[kind], "when": when}, M{"prefix": prefix, "source_type_id": e.TypeId(), "source_text": e.Error(),
+					"result_text": res.Error(), "message": "PrependError does not describe what the exception object holds " + when})
+				return false
+			}
+			return true
+		}
+		if !check("at the first call") {
+			return
+		}
+		src := thrift.NewApplicationException(id2, t2)
+		buf := make([]byte, src.BLength())
+		src.FastWrite(buf)
+		if _, err := e.FastRead(buf); err != nil {
+			cs.Fail("harness-self-check", M{"what": "refill"}, M{"err": errString(err)})
+			return
+		}
+		check("after the object was refilled by FastRead")
+		cs.Count(true, "refill", cs.Idx)
+		cs.C.Obs("prepend after refill", 1)
+	})
+
 	// (3) errors.Is over all ordered pairs of a pool of terms
 	c.Stage("is-pairs", c.Pick(30000, 500000), false, func(cs *drv.Case) {
 		r := cs.R
